@@ -81,20 +81,25 @@ class Verdict:
             if k["id"] in self.known_hit:
                 print(f"KNOWN-FINDING: property={self.prop} {k['what']} "
                       f"[{k['id']}, {self.known_hit[k['id']]} occurrence(s) this run]")
-        paths = []
-        for n, (what, sig, replay) in enumerate(self.violations[:20]):
+        groups = {}
+        for what, sig, replay in self.violations:
+            key = json.dumps(sig, sort_keys=True, default=str)
+            groups.setdefault(key, []).append((what, sig, replay))
+        for n, (key, items) in enumerate(list(groups.items())[:25]):
+            what, sig, replay = items[0]
             path = os.path.join(REPLAYS, f"{self.prop}-{n}.json")
             with open(path, "w") as fh:
                 json.dump({"property": self.prop, "what": what, "signature": sig,
+                           "occurrences": len(items),
                            "repo": repo_rev(), "seed": self.args.seed, "tier": self.args.tier,
                            "rerun": f"cd {ROOT} && /venv/bin/python -m checks.{self.prop.lower()} "
                                     f"--replay {path}",
                            **replay}, fh, indent=1, default=str)
-            paths.append(path)
             print(f"VIOLATION property={self.prop} replay={path}")
-            print(f"  {what}")
-        if len(self.violations) > 20:
-            print(f"  ... and {len(self.violations) - 20} more violations")
+            print(f"  [{len(items)}x] signature={key}")
+            print(f"  {what[:600]}")
+        if len(groups) > 25:
+            print(f"  ... and {len(groups) - 25} more distinct violation signatures")
         ev = {
             "property_id": self.prop,
             "tier": self.args.tier,
